@@ -433,12 +433,29 @@ func ruleC16Cross(p *Prog, a *Anchors, r *Report) {
 	// the completer itself may refuse: it gives its token's position only to an error that names the token's source or
 	// none (every store of Line in it stands behind such a test)
 	refuses, nLine := true, 0
-	for _, b := range upd.Blocks {
-		for _, in := range b.Instrs {
-			if st, ok := in.(*ssa.Store); ok && isFieldAddrOf(st.Addr, "Error", "Line") {
+	same := func(c ssa.Value, pol bool) bool { return sameSourceAtom(p, c, pol) }
+	for _, fn := range clusterOf(p, upd, 1) {
+		if fn != upd && (fn.Signature.Recv() == nil || structOf(fn.Signature.Recv().Type()) != a.Error) {
+			continue
+		}
+		for _, b := range fn.Blocks {
+			for _, in := range b.Instrs {
+				st, ok := in.(*ssa.Store)
+				if !ok || !isFieldAddrOf(st.Addr, "Error", "Line") {
+					continue
+				}
 				nLine++
-				if !Guarded(in, func(c ssa.Value, pol bool) bool { return sameSourceAtom(p, c, pol) }) {
-					refuses = false
+				if fn == upd {
+					if !Guarded(in, same) {
+						refuses = false
+					}
+					continue
+				}
+				// a setter the completer calls (c.setPositionFrom(t)): the test stands at the call
+				for _, ci := range callsTo(upd, fn) {
+					if !Guarded(ci.(ssa.Instruction), same) {
+						refuses = false
+					}
 				}
 			}
 		}
